@@ -306,13 +306,76 @@ impl Sys {
     }
 }
 
+/// One record of the size real chunks have (well above any internal block size of the sealing code), written once by the
+/// real write task; then every byte prefix 0..=len of its file is left behind as the only content of a store directory and
+/// the real store is opened on it with the same identity: it serves nothing or exactly the value (and the value at the full length).
+fn large_record_sweep(run: &'static Run) {
+    let peer = rigs::fixtures::peer_id(1);
+    let key = ranked_keys(peer, 1, "c02-large").remove(0);
+    let big = RigCfg { max_records: 100, cache_size: 1, max_value_bytes: None };
+    for len in run.pick(vec![140_000usize], vec![70_000, 140_000, 300_000]) {
+        let mut value = vec![0x91u8, 1];
+        value.extend((0..len - 2).map(|i| ((i * 31 + i / 251) % 256) as u8));
+        let full = {
+            let dir = fresh_scratch("c02-large-bytes");
+            let mut rig = StoreRig::new(&dir, big.clone(), peer);
+            rig.settle();
+            rig.put(&key, &value).expect("put of a large record");
+            let id = rig.enabled_tasks()[0];
+            rig.run_task(id);
+            let b = std::fs::read(rig.storage_dir().join(hexkey(&key))).expect("written file");
+            drop(rig);
+            let _ = std::fs::remove_dir_all(&dir);
+            b
+        };
+        let next = std::sync::atomic::AtomicUsize::new(0);
+        let total = full.len() + 1;
+        std::thread::scope(|sc| {
+            for _ in 0..mc_core::workers() {
+                sc.spawn(|| {
+                    let dir = fresh_scratch("c02-large");
+                    std::fs::create_dir_all(dir.join("record_store")).expect("mkdir");
+                    let file = dir.join("record_store").join(hexkey(&key));
+                    loop {
+                        let p = next.fetch_add(1, std::sync::atomic::Ordering::Relaxed);
+                        if p >= total {
+                            break;
+                        }
+                        std::fs::write(&file, &full[..p]).expect("torn file");
+                        run.case(format!("large:{len}:{p}").as_bytes(), true);
+                        let rig = StoreRig::new(&dir, big.clone(), peer);
+                        let got = rig.get(&key).map(|r| r.value);
+                        let listed = rig.store.verif_contains(&key);
+                        let w = serde_json::json!({"op": "large-record-torn", "value_len": len, "file_len": full.len(), "torn_at": p});
+                        if let Some(g) = &got {
+                            if *g != value {
+                                run.violation("no-corrupt-read", "torn-write", format!("after a torn write of a {len}-byte record at byte {p}/{}: the restarted store serves {} bytes that are not the validated value", full.len(), g.len()), w.clone());
+                            }
+                        }
+                        if listed && got.is_none() {
+                            run.violation("listed-implies-readable", "torn-write", format!("after a torn write of a {len}-byte record at byte {p}/{}: listed by the restarted store but unreadable", full.len()), w.clone());
+                        }
+                        if p == full.len() && (got.is_none() || !listed) {
+                            run.violation("completed-write-survives", "between-tasks", format!("a completely written {len}-byte record is not served after a restart"), w);
+                        }
+                        drop(rig);
+                    }
+                    let _ = std::fs::remove_dir_all(&dir);
+                });
+            }
+        });
+        run.count("large_record_torn_points", total as u64);
+    }
+}
+
 pub fn main(tier: Option<&str>) {
     let run: &'static Run = Box::leak(Box::new(Run::new("C02", "fault_enumeration", tier)));
     run.rule(
         "every reachable state of the store under histories of <=3(4) Put/Remove operations over 2 keys x 2 values (of different lengths, one of them the largest value the store admits) with every completion \
          order of the background tasks (per key in order); in each state the node is stopped exactly there and, for every pending file \
          write, at every byte prefix 0..=len of the ciphertext it was writing (the bytes come from running the real write task); \
-         the real store is re-opened twice on the directory with the same identity. A case = one (state, crash point); non-trivial = \
+         the real store is re-opened twice on the directory with the same identity. In addition one record of 140,000 bytes (thorough: 70,000 / 140,000 / 300,000) \
+         written by the real write task is torn at every byte prefix of its file and the real store opened on it. A case = one (state, crash point); non-trivial = \
          the directory holds at least one record file or torn file.",
     );
     run.assume("process-stop semantics: completed file-system calls persist; reordering of unsynced blocks on power loss is not modelled");
@@ -358,6 +421,10 @@ pub fn main(tier: Option<&str>) {
     run.extra("torn_write_points", serde_json::json!(tp));
     run.extra("recoveries", serde_json::json!(sh.recoveries.load(std::sync::atomic::Ordering::Relaxed)));
     run.extra("transitions_crashed", serde_json::json!(st.transitions));
+    let t0 = std::time::Instant::now();
+    large_record_sweep(run);
+    run.extra("large_record_torn_points", serde_json::json!(run.get_count("large_record_torn_points")));
+    println!("[C02] large-record sweep: {} torn points in {:.1}s", run.get_count("large_record_torn_points"), t0.elapsed().as_secs_f64());
     println!("[C02] crash points: {cp} between tasks, {tp} torn-write prefixes, {} recoveries", sh.recoveries.load(std::sync::atomic::Ordering::Relaxed));
     run.finish_ref();
 }
